@@ -188,6 +188,15 @@ def infeasible_items(tier):
         for gap in ("0min", "100d", "3w", "1y"):
             add(f"gap {gap} alap={alap}", {"alap": alap, "resources": R, "tasks": [T("a"), T("b", deps=[{"ref": "a", "gap": gap}])]})
         add(f"onstart-cycle alap={alap}", {"alap": alap, "resources": R, "tasks": [T("a", deps=[{"ref": "b", "onstart": True}]), T("b", deps=[{"ref": "a", "onstart": True}])]})
+    for alap in (False, True):
+        for big in ("3000min", "20000min", "100000min"):
+            for res in ({"id": "r1"}, {"id": "r1", "hours": [("mon - fri", ["8:00 - 16:00"])]}):
+                add(f"later scenario bigger {big} alap={alap} ownhours={'hours' in res}",
+                    {"alap": alap, "scenarios": [("plan", [("s2", [("s3", [])])])], "resources": [res],
+                     "tasks": [{"id": "a", "effort": 90, "alloc": ["r1"], "scen": [("s2", f"effort {big}")]}, T("b", deps=["a"]), {"id": "d", "raw": ["duration 3d"], "deps": ["a"]}]})
+        for gl in ("2h", "3d", "4w", "60d"):
+            add(f"gaplength {gl} alap={alap}", {"alap": alap, "dur": "2w", "resources": R,
+                                                "tasks": [T("a"), {"id": "b", "effort": 60, "alloc": ["r1"], "raw": [f"depends a {{ gaplength {gl} }}"]}]})
     never = {"id": "rp", "leaves": [{"k": "leaves", "type": "annual", "a": "2025-01-01", "b": "2026-01-01"}]}
     for alap in (False, True):
         for scen in (None, [("plan", [("s2", [])])]):
